@@ -118,10 +118,13 @@ def main():
     ck.assumptions = ['well-defined = extracted XSem says Behaviour; others are counted and dropped',
                       'code words = image words that are not DATA directives; free memory = words from the end of the image to 199999',
                       'boundary programs are sized from the measured stack use of the real binary (lowest mem[1] reached on the ISA)',
-                      'proved part (Properties_C08.v): the monitor is complete and sound for ALL runs; and, for the statement fragment without calls '
+                      'proved part (Properties_C08.v): the monitor is complete and sound for ALL runs; and, for the statement fragment '
                       '(C08_frame_discipline_partial), the code of the model leaves mem[1] and all protected words unchanged and changes memory only in the '
-                      "procedure's temporaries, its outgoing area and the words of variables in scope, between statement boundaries; "
-                      'NOT proved: the per-access clauses for every program (decided here per run by the proved monitor), calls, the entry/exit stub']
+                      "procedure's temporaries, its outgoing area, the free stack below its frame and the words of variables in scope, between statement boundaries; "
+                      'and across a call of a procedure with value formals and var locals that hide no global (C08_call_discipline_partial) control returns to the '
+                      'link address with mem[1] restored (prologue/epilogue balance, nested and recursive calls included), protected words unchanged, the '
+                      "caller's locals, formals and everything above its frame untouched, the stack never below the budget XSem's depth bound implies; "
+                      'NOT proved: the per-access clauses for every program (decided here per run by the proved monitor), function calls, array/proc formals, the entry/exit stub']
     if os.path.exists(os.path.join(vlib.COQ, 'Properties_%s.v' % PID)):
         ok = ck.proofs()
         ck.log('proofs', 'ok' if ok else 'BROKEN')
